@@ -297,6 +297,68 @@ func c16(x *mon.Ctx) {
 				}
 			}
 		}
+		// options whose byte strings have the WRONG length (half, one short, one long, empty) and spare capacity behind them:
+		// whatever validation makes of them (an error, normally), it must not write to them
+		for _, how := range []string{"half", "one-short", "one-long", "empty"} {
+			for _, call := range apiCalls16 {
+				if !strings.HasPrefix(call.name, "validate.") {
+					continue
+				}
+				m := mon.BuildMessage(q)
+				raw := append([]byte(nil), s.c.Quote...)
+				po := policyFor(q, 96)
+				resize := func(b []byte) []byte {
+					switch how {
+					case "half":
+						return b[:len(b)/2]
+					case "one-short":
+						return b[:len(b)-1]
+					case "one-long":
+						return b[:len(b)+1]
+					}
+					return b[:0]
+				}
+				h, t := &po.HeaderOptions, &po.TdQuoteBodyOptions
+				for _, f := range []*[]byte{&h.QeVendorID, &t.MinimumTeeTcbSvn, &t.MrSeam, &t.TdAttributes, &t.Xfam, &t.MrTd, &t.MrConfigID, &t.MrOwner, &t.MrOwnerConfig, &t.ReportData, &t.Rtmrs[0], &t.Rtmrs[3], &t.AnyMrTd[0]} {
+					*f = resize(*f)
+				}
+				vo, _ := mon.Options(s.c)
+				// one field at a time keeps the others valid, so that the odd one is reached whatever the checking order
+				for fi, f := range []*[]byte{&h.QeVendorID, &t.MinimumTeeTcbSvn, &t.MrSeam, &t.TdAttributes, &t.Xfam, &t.MrTd, &t.MrConfigID, &t.MrOwner, &t.MrOwnerConfig, &t.ReportData, &t.Rtmrs[0], &t.Rtmrs[3], &t.AnyMrTd[0]} {
+					one := policyFor(q, 96)
+					oh, ot := &one.HeaderOptions, &one.TdQuoteBodyOptions
+					g := []*[]byte{&oh.QeVendorID, &ot.MinimumTeeTcbSvn, &ot.MrSeam, &ot.TdAttributes, &ot.Xfam, &ot.MrTd, &ot.MrConfigID, &ot.MrOwner, &ot.MrOwnerConfig, &ot.ReportData, &ot.Rtmrs[0], &ot.Rtmrs[3], &ot.AnyMrTd[0]}[fi]
+					*g = resize(*g)
+					_ = f
+					regs := snapshot(map[string]any{"policy": one})
+					pv, st := mon.Guard(func() { call.f(m, raw, vo, one); call.f(m, raw, vo, one) })
+					param := fmt.Sprintf("%s/%s/field%d-%s", s.name, call.name, fi, how)
+					prob := ""
+					if pv != "" {
+						prob = "panics: " + pv + "\n" + st
+					} else if d := changed(regs); d != "" {
+						prob = call.name + " wrote to an option byte string (or the spare capacity behind it): " + d
+					}
+					if prob != "" {
+						x.Violation("no-write/odd-sized-options", param, prob, "verify", s.c)
+					}
+					x.Note("no-write/odd-sized-options", param, false, pv != "", prob == "")
+				}
+				regs := snapshot(map[string]any{"policy": po})
+				pv, st := mon.Guard(func() { call.f(m, raw, vo, po) })
+				param := fmt.Sprintf("%s/%s/all-%s", s.name, call.name, how)
+				prob := ""
+				if pv != "" {
+					prob = "panics: " + pv + "\n" + st
+				} else if d := changed(regs); d != "" {
+					prob = call.name + " wrote to an option byte string (or the spare capacity behind it): " + d
+				}
+				if prob != "" {
+					x.Violation("no-write/odd-sized-options", param, prob, "verify", s.c)
+				}
+				x.Note("no-write/odd-sized-options", param, false, pv != "", prob == "")
+			}
+		}
 		// aliasing between the parsed message and the input buffer
 		raw := append([]byte(nil), s.c.Quote...)
 		any1, err := abi.QuoteToProto(raw)
@@ -347,6 +409,7 @@ func c16(x *mon.Ctx) {
 	}
 	x.Require("no-write/parsed", 20, 5, 60)
 	x.Require("no-write/built-with-spare", 20, 5, 60)
+	x.Require("no-write/odd-sized-options", 0, 0, 400)
 	x.Require("aliasing", 6, 0, 6)
 
 	// ---------------- (b)+(c) concurrent stress under the race detector
